@@ -1,9 +1,36 @@
 import Apko.Driver.Version
-/-! Line-protocol driver: one tab-separated request per line on stdin, one response line on stdout. -/
+import Apko.Driver.Retry
+import Apko.Driver.Formats
+import Apko.Driver.Oci
+import Apko.Driver.Layers
+import Apko.Driver.FS
+import Apko.Driver.Resolver
+import Apko.Driver.IndexSig
+import Apko.Driver.Authentic
+import Apko.Driver.Cache
+import Apko.Driver.Sbom
+import Apko.Driver.Accounts
+import Apko.Driver.Tar
+import Apko.Driver.Conflict
+import Apko.Driver.Confine
+import Apko.Driver.Robust
+import Apko.Driver.Repro
+/-!
+Line-protocol driver: one tab-separated request per line on stdin, one response line on stdout.
+Handlers are stateless: a request carries a whole case (e.g. a whole operation sequence).
+A response is `impl \t spec \t class` (see harness/engine.go).  `flush` flushes stdout.
+-/
 open Apko
 
+def handlers : List (List String → Option String) := [
+  Driver.Version.handle, Driver.Retry.handle, Driver.Formats.handle, Driver.Oci.handle,
+  Driver.Layers.handle, Driver.FS.handle, Driver.Resolver.handle, Driver.IndexSig.handle,
+  Driver.Authentic.handle, Driver.Cache.handle, Driver.Sbom.handle, Driver.Accounts.handle,
+  Driver.Tar.handle, Driver.Conflict.handle, Driver.Confine.handle, Driver.Robust.handle,
+  Driver.Repro.handle]
+
 def dispatch (args : List String) : String :=
-  match Driver.Version.handle args with
+  match handlers.findSome? (fun h => h args) with
   | some r => r
   | none => "bad-op"
 
